@@ -12,10 +12,10 @@ import OpcuaModel.Model.NodeIdLemmas
   any flag bits).  `SameNode` = same namespace and same identifier, numeric
   encodings identified, flag bits ignored.
 
-  The round trip does NOT hold for every NodeID: a String id in namespace 0
-  whose text contains ';' renders as `s=…;…`, which the parser's SplitN cuts in
-  the middle (`Defect`, finding C04.string-ns0-semicolon).  It is proved for
-  all other NodeIDs, and the defect is proved to fail for EVERY such NodeID.
+  Since the repair of the parser (a text starting with "s=" is no longer cut
+  at ';'; finding C04.string-ns0-semicolon, fixed) the round trip is proved at
+  FULL strength: for every well-formed NodeID, no guard.  Still recorded:
+  C04.nsu-uri-semicolon (a namespace URI containing ';' cannot be named).
 -/
 namespace Opcua.Props.C04
 open Opcua Opcua.NodeIdText
@@ -64,22 +64,23 @@ theorem C04_canon_same (n : NodeID) (h : WF n) : SameNode (canon n) n ∧ WF (ca
   · simp [SameNode, ident, NodeID.typ, WF, hn, hg, gl, t']; exact gb
   · simp [SameNode, ident, newByteString, NodeID.typ, WF, hn, t']; exact ob
 
-/-- ROUND TRIP (partial: outside the finding's signature): the string form of
-    every well-formed NodeID parses, and parses to `canon n` — the same node
-    in the smallest numeric encoding with the flag bits cleared -/
-theorem C04_parse_toString_partial (n : NodeID) (h : WF n) (hd : ¬ Defect n) :
+/-- ROUND TRIP (full strength): the string form of every well-formed NodeID
+    parses, and parses to `canon n` — the same node in the smallest numeric
+    encoding with the flag bits cleared -/
+theorem C04_parse_toString (n : NodeID) (h : WF n) :
     ∃ t, toString n = some t ∧ parseNodeID t = some (canon n) := by
   refine ⟨_, toString_eq n h, ?_⟩
   have hl := (letterOf_ne n).2
+  have hl' := (letterOf_ne n).1
   rcases h with ⟨t, z, hv⟩ | ⟨t, hn, hv⟩ | ⟨t, hn, hv⟩ | ⟨t, hn⟩ | ⟨t, hn, g, hg, gl, gb⟩ | ⟨t, hn, ob⟩
   · apply parseNodeID_of
-    · rw [parseExpanded_withNs _ _ _ (by omega) hl (fun _ => by simp only [bodyOf, t]; exact dec_no_semicolon _)]
+    · rw [parseExpanded_withNs _ _ _ (by omega) hl hl' (fun _ _ => by simp only [bodyOf, t]; exact dec_no_semicolon _)]
       simp only [letterOf, bodyOf, t]
       rw [parseIdent_num _ _ (by omega)]
       simp [canon, t, z, hv]
     · simp [canon, t, z, hv, newTwoByte]
   · apply parseNodeID_of
-    · rw [parseExpanded_withNs _ _ _ (by omega) hl (fun _ => by simp only [bodyOf, t]; exact dec_no_semicolon _)]
+    · rw [parseExpanded_withNs _ _ _ (by omega) hl hl' (fun _ _ => by simp only [bodyOf, t]; exact dec_no_semicolon _)]
       simp only [letterOf, bodyOf, t]
       rw [parseIdent_num _ _ (by omega)]
       simp [canon, t]
@@ -88,7 +89,7 @@ theorem C04_parse_toString_partial (n : NodeID) (h : WF n) (hd : ¬ Defect n) :
       · simp [newTwoByte]
       · split <;> simp [newFourByte, newNumeric]
   · apply parseNodeID_of
-    · rw [parseExpanded_withNs _ _ _ (by omega) hl (fun _ => by simp only [bodyOf, t]; exact dec_no_semicolon _)]
+    · rw [parseExpanded_withNs _ _ _ (by omega) hl hl' (fun _ _ => by simp only [bodyOf, t]; exact dec_no_semicolon _)]
       simp only [letterOf, bodyOf, t]
       rw [parseIdent_num _ _ (by omega)]
       simp [canon, t]
@@ -97,22 +98,22 @@ theorem C04_parse_toString_partial (n : NodeID) (h : WF n) (hd : ¬ Defect n) :
       · simp [newTwoByte]
       · split <;> simp [newFourByte, newNumeric]
   · apply parseNodeID_of
-    · rw [parseExpanded_withNs _ _ _ (by omega) hl
-        (fun z => by simp only [bodyOf, stringID, t]; exact fun hm => hd ⟨t, z, hm⟩)]
+    · rw [parseExpanded_withNs _ _ _ (by omega) hl hl'
+        (fun _ hne => absurd (by simp [letterOf, t]) hne)]
       simp only [letterOf, bodyOf, stringID, t]
       rw [parseIdent_str]
       simp [canon, t]
     · simp [canon, t, newString]
   · apply parseNodeID_of
-    · rw [parseExpanded_withNs _ _ _ (by omega) hl
-        (fun _ => by simp only [bodyOf, stringID, t, hg]; exact guidText_no_semicolon _)]
+    · rw [parseExpanded_withNs _ _ _ (by omega) hl hl'
+        (fun _ _ => by simp only [bodyOf, stringID, t, hg]; exact guidText_no_semicolon _)]
       simp only [letterOf, bodyOf, stringID, t, hg]
       rw [parseIdent_guid _ _ gl gb]
       simp [canon, t, hg]
     · simp [canon, t]
   · apply parseNodeID_of
-    · rw [parseExpanded_withNs _ _ _ (by omega) hl
-        (fun _ => by simp only [bodyOf, stringID, t]; exact b64enc_no_semicolon _)]
+    · rw [parseExpanded_withNs _ _ _ (by omega) hl hl'
+        (fun _ _ => by simp only [bodyOf, stringID, t]; exact b64enc_no_semicolon _)]
       simp only [letterOf, bodyOf, stringID, t]
       rw [parseIdent_opaque _ _ ob]
       simp [canon, t]
@@ -143,41 +144,31 @@ theorem C04_equal_iff (a b : NodeID) (ha : WF a) (hb : WF b) :
   rw [← key]
   simp [equal]
 
-/-- the parsed NodeID is `Equal` to the original (the property as stated) -/
-theorem C04_roundtrip_equal_partial (n : NodeID) (h : WF n) (hd : ¬ Defect n) :
+/-- the parsed NodeID is `Equal` to the original (the property as stated, full strength) -/
+theorem C04_roundtrip_equal (n : NodeID) (h : WF n) :
     ∃ t n', toString n = some t ∧ parseNodeID t = some n' ∧ WF n' ∧ SameNode n' n ∧ equal n' n = true := by
-  obtain ⟨t, h1, h2⟩ := C04_parse_toString_partial n h hd
+  obtain ⟨t, h1, h2⟩ := C04_parse_toString n h
   obtain ⟨h3, h4⟩ := C04_canon_same n h
   exact ⟨t, canon n, h1, h2, h4, h3, ((C04_equal_iff (canon n) n h4 h).2).mpr h3⟩
 
-/-! ### the finding: String ids of namespace 0 containing ';' -/
+/-! ### the former finding (C04.string-ns0-semicolon, fixed) as a regression -/
 
-/-- EVERY well-formed NodeID with the signature fails to parse — with or
-    without a namespace table (finding C04.string-ns0-semicolon) -/
-theorem C04_finding_string_ns0_semicolon (n : NodeID) (h : WF n) (hd : Defect n) :
-    ∃ t, toString n = some t ∧ parseNodeID t = none ∧ ∀ tbl, parseExpanded t tbl = none := by
-  obtain ⟨t, z, hm⟩ := hd
-  refine ⟨_, toString_eq n h, ?_⟩
-  obtain ⟨a, b, hab⟩ := splitFirst_of_mem hm
-  have key : ∀ tbl, parseExpanded (withNs n.ns (letterOf n) (bodyOf n)) tbl = none := by
-    intro tbl
-    simp [withNs, z, letterOf, bodyOf, stringID, t, parseExpanded, splitFirst, hab, parseNs, List.isPrefixOf]
-  exact ⟨by simp [parseNodeID, key], key⟩
+/-- `NewStringNodeID(0, "a;b").String()` = `s=a;b` now parses to the String id
+    "a;b" of namespace 0; so do the look-alikes `s=ns=1;i=5` and `s=nsu=x;` -/
+theorem C04_former_witness_roundtrips :
+    toString (newString 0 [97, 59, 98]) = some [115, 61, 97, 59, 98] ∧
+    parseNodeID [115, 61, 97, 59, 98] = some (newString 0 [97, 59, 98]) ∧
+    parseNodeID [115, 61, 110, 115, 61, 49, 59, 105, 61, 53] = some (newString 0 [110, 115, 61, 49, 59, 105, 61, 53]) ∧
+    parseNodeID [115, 61, 110, 115, 117, 61, 120, 59] = some (newString 0 [110, 115, 117, 61, 120, 59]) := by
+  decide
 
-/-- the witness of the finding: `NewStringNodeID(0, "a;b").String()` = `s=a;b` does not parse -/
-theorem C04_finding_witness :
-    WF (newString 0 [97, 59, 98]) ∧ toString (newString 0 [97, 59, 98]) = some [115, 61, 97, 59, 98] ∧
-    parseNodeID [115, 61, 97, 59, 98] = none := by
-  refine ⟨Or.inr (Or.inr (Or.inr (Or.inl ⟨rfl, by decide⟩))), by decide, by decide⟩
-
-/-- the split of the domain is decidable and exhaustive -/
-theorem C04_domain_split (n : NodeID) (h : WF n) :
-    (Defect n ∧ ∃ t, toString n = some t ∧ parseNodeID t = none) ∨
-    (¬ Defect n ∧ ∃ t, toString n = some t ∧ parseNodeID t = some (canon n)) := by
-  by_cases hd : Defect n
-  · obtain ⟨t, h1, h2, _⟩ := C04_finding_string_ns0_semicolon n h hd
-    exact Or.inl ⟨hd, t, h1, h2⟩
-  · exact Or.inr ⟨hd, C04_parse_toString_partial n h hd⟩
+/-- what stays an error: a text with a ';' whose first part is neither a
+    namespace nor the string prefix (`abc=0;i=2`, `i=1;x`, `foo;bar`) -/
+theorem C04_malformed_namespace_rejected :
+    parseNodeID [97, 98, 99, 61, 48, 59, 105, 61, 50] = none ∧
+    parseNodeID [105, 61, 49, 59, 120] = none ∧
+    parseNodeID [102, 111, 111, 59, 98, 97, 114] = none := by
+  decide
 
 /-- the empty text is the null NodeID `i=0` -/
 theorem C04_parse_empty : parseNodeID [] = some (newTwoByte 0) := by decide
